@@ -340,9 +340,10 @@ def main():
     # filter chains with several elements under real concurrency (the chain walker must not share state between threads)
     for i in range(12 if tr == "quick" else 120):
         longl = ",".join(str(1000 + j) for j in range(150))           # long lists: the list parser itself runs for a while in every thread
+        shortl = ",".join(str(1000 + j) for j in range(80))           # (a config line holds 1023 bytes: two lists must share them)
         ch = rng.choice([("noop;noop;noop;only_uid:7", "drop"), ("noop;exclude_uid:5;only_uid:0,1;noop;exclude_uid:0", "drop"),
                          ("noop;only_uid:0;exclude_uid:7;noop", "log"), ("only_root;noop;noop;noop;exclude_spawns_of:nope", "log"),
-                         ("only_uid:%s,0" % longl, "log"), ("exclude_uid:%s,0" % longl, "drop"), ("exclude_uid:%s;only_uid:%s,0" % (longl, longl), "log"),
+                         ("only_uid:%s,0" % longl, "log"), ("exclude_uid:%s,0" % longl, "drop"), ("exclude_uid:%s;only_uid:%s,0" % (shortl, shortl), "log"),
                          ("exclude_spawns_of:%s" % ",".join("prog%d" % j for j in range(120)), "log")])
         sj.append((bld, "plain", rng.choice([16, 32, 64]), 1500 if tr == "quick" else 3000, FMT, "file", rng.randrange(1, 10**6), root, idx, ch))
         idx += 1
